@@ -45,7 +45,7 @@ REGISTRY = {
         "level_text": 'every hunk report of millions of real TextFilePatch::apply executions is checked online against an independent brute-force statement of the placement rules; exhaustive inside the stated small scope, random beyond',
         "level_note": 'trusted: the 60-line reference model in harness/src/oracle.rs (select/trims); the ordering restriction is mirrored, not asserted',
         "technique": 'runtime monitoring: online oracle over hunk reports vs brute-force placement model',
-        "parts": [L.lib_c02],
+        "parts": [L.lib_c02, L.san_c02],
         "rule": "every single-hunk placement over files <= 5 (quick) / 6 (thorough) lines of {a,b}, prefix/suffix context <= 2, removed core <= 2, "
                 "stated line 0..7 on the matched side and {same,1,+3} on the other side, fuzz limit 0..2, both directions (exhaustive); random drifted "
                 "multi-hunk diffs and random two/three-hunk patches on repetitive files. Each hunk report is checked against an independent "
@@ -57,7 +57,7 @@ REGISTRY = {
         "level_text": 'result of real applications compared with a reconstruction that uses only the reports and the hunk text',
         "level_note": 'trusted: harness reader of its own patch rendering',
         "technique": 'runtime monitoring: reconstruction oracle over apply reports',
-        "parts": [L.lib_c03],
+        "parts": [L.lib_c03, L.san_c03],
         "rule": "random 2-3 hunk patches on small repetitive files (neighbouring / overlapping context, different offsets, fuzz), random drifted "
                 "multi-hunk diffs and stacks of patches; the result is compared with an independent reconstruction (original with the changed lines "
                 "of each applied hunk replaced at its reported position). Non-trivial: >= 2 applied hunks or a partially applied patch.",
@@ -67,7 +67,7 @@ REGISTRY = {
         "level_text": 'apply/rollback stacks executed for real under catch_unwind with snapshots before each apply',
         "level_note": 'trusted: snapshots of ModifiedFile public fields',
         "technique": 'runtime monitoring: snapshot/restore invariant checked after every rollback',
-        "parts": [L.lib_c04, K.cli_c04],
+        "parts": [L.lib_c04, L.san_c04, K.cli_c04],
         "rule": "library layer: apply then roll back stacks of 1-4 file patches (modify / create / delete in both header styles, mode changes, "
                 "partial applications, fuzz) on one file; after each undo content, existence flag and permissions must equal the snapshot taken "
                 "before the corresponding apply; a panic is a violation. Non-trivial: at least one hunk applied.",
@@ -133,7 +133,7 @@ REGISTRY = {
         "level_text": 'parser and follow-up application run on bounded-exhaustive line sequences, numeric extremes, mutants; panics caught, allocations counted, aborts/hangs attributed per case',
         "level_note": 'trusted: counting GlobalAlloc wrapper; 20 s isolated re-run decides non-termination',
         "technique": 'runtime monitoring: catch_unwind + counting allocator + process-level crash attribution; Miri in thorough',
-        "parts": [L.lib_c11, K.cli_c11],
+        "parts": [L.lib_c11, L.san_c11, K.cli_c11],
         "rule": "library layer: all sequences of <= 4 (quick) / 5 (thorough) lines over a 28-line vocabulary of meaningful patch lines, numeric "
                 "extremes (0 .. 10^30) in every numeric position of 6 templates, line/byte mutations and truncations of a corpus (testdata + generated "
                 "patches), random bytes, grammar-generated valid patches; each parsed with strip 1 and 0 under catch_unwind with a counting allocator "
@@ -145,7 +145,7 @@ REGISTRY = {
         "level_text": 'parse-write-parse-write executed on every parseable generated input and compared field by field',
         "level_note": 'trusted: field accessors of FilePatch',
         "technique": 'runtime monitoring: round-trip oracle',
-        "parts": [L.lib_c12],
+        "parts": [L.lib_c12, L.san_c12],
         "rule": "every parseable input among: the repository's test patches, grammar-generated valid patches over all dialects / metadata "
                 "combinations / quoted names / empty-side hunks / missing newlines, corpus mutants and vocabulary sequences. parse -> write -> "
                 "parse must give the same file patches (kind, names, rename, modes, hashes, hunk lines, start lines) and write must be a fixed "
